@@ -109,18 +109,18 @@ import (
 )
 
 const (
-	c02cwProp = "C02"
-	c02cwPart = "conn-write"
+	c02cwProp    = "C02"
+	c02cwPart    = "conn-write"
 	c02cwHdrLen  = 2 // bytes per header buffer
 	c02cwBodyLen = 3 // bytes per body buffer
 )
 
 type c02cwCase struct {
-	Mode      string `json:"mode"`               // direct | netpoll | loop
+	Mode      string `json:"mode"`              // direct | netpoll | loop
 	NoWait    bool   `json:"no_wait,omitempty"` // direct modes: writers do not wait for the try-lock (a contended TryLock times out at once)
-	Writers   []int  `json:"writers"`            // calls per writer thread
-	Closer    string `json:"closer,omitempty"`   // "" | flush | noflush
-	FaultAt   int    `json:"fault_at"`           // index of the faulted non-empty raw write of the execution, -1 = none
+	Writers   []int  `json:"writers"`           // calls per writer thread
+	Closer    string `json:"closer,omitempty"`  // "" | flush | noflush
+	FaultAt   int    `json:"fault_at"`          // index of the faulted non-empty raw write of the execution, -1 = none
 	FaultKind string `json:"fault_kind,omitempty"`
 	FaultN    int    `json:"fault_n,omitempty"` // bytes accepted by the faulted raw write
 	Bound     int    `json:"bound"`
